@@ -352,6 +352,7 @@ func build(w *vgen.Writer, r *vgen.Rand, desc any, cfgs []readerCfg, nInst int, 
 	// letter case, distinct names).  Stream identity = lower-cased name; every identity must carry
 	// every measurement of the instrument exactly once.
 	names := make([][]string, nInst)
+	invalid := make([]bool, nInst)
 	for i := 0; i < nInst; i++ {
 		base := fmt.Sprintf("c%d", i)
 		names[i] = []string{base}
@@ -373,6 +374,19 @@ func build(w *vgen.Writer, r *vgen.Rand, desc any, cfgs []readerCfg, nInst int, 
 					opts = append(opts, sdk.WithView(sdk.NewView(sdk.Instrument{Name: base}, sdk.Stream{Name: n})))
 				}
 				wd.viewsD = append(wd.viewsD, fmt.Sprintf("%s -> %v", base, names[i]))
+				// next to the valid view(s), sometimes one whose aggregation the instrument kind cannot use
+				// (LastValue on a counter): creating the instrument then reports an error (documented), and
+				// the valid streams must still see every measurement exactly once
+				if r.Chance(1, 3) {
+					bad := sdk.WithView(sdk.NewView(sdk.Instrument{Name: base}, sdk.Stream{Name: base + "bad", Aggregation: sdk.AggregationLastValue{}}))
+					if r.Bool() { // before or after the valid ones
+						opts = append([]sdk.Option{bad}, opts...)
+					} else {
+						opts = append(opts, bad)
+					}
+					invalid[i] = true
+					wd.viewsD = append(wd.viewsD, base+" -> incompatible LastValue view")
+				}
 			}
 		}
 	}
@@ -405,8 +419,14 @@ func build(w *vgen.Writer, r *vgen.Rand, desc any, cfgs []readerCfg, nInst int, 
 		default:
 			in.ic, err = meter.Int64Counter(in.name)
 		}
-		if err != nil {
+		if err != nil && !invalid[i] {
 			return nil, err
+		}
+		if invalid[i] {
+			if err == nil {
+				wd.bad("creating an instrument matched by an incompatible view reported no error")
+			}
+			w.Tally("instrument with an incompatible view next to valid ones")
 		}
 		wd.insts = append(wd.insts, in)
 	}
